@@ -274,7 +274,7 @@ func (fv *FuncVC) evalAppend(call *ast.CallExpr, st *State) Val {
 	base = fv.convertTo(base, fv.typeOf(call.Args[0]), T, st)
 	et := elemType(T)
 	es := fv.th.sortOf(et)
-	h := fv.declSliceHeap(es)
+	h := fv.declSliceHeapT(et)
 	if call.Ellipsis.IsValid() {
 		// append(a, b...)
 		other := fv.eval(call.Args[1], st)
@@ -362,6 +362,11 @@ func (fv *FuncVC) evalArgs(call *ast.CallExpr, f *types.Func, st *State) (recv *
 				rv = fv.havocVal(st, "recvaddr", recvT)
 			} else if !wantPtr && havePtr && !types.IsInterface(recvT) {
 				rv = fv.deref(rv, recvT, st, fv.text(se.X))
+			} else if wantPtr && havePtr && rv.S == SRef {
+				// the callee is swept assuming a non-nil pointer receiver: the caller owes it
+				n := fv.nextOrd("nilrecv")
+				fv.oblig(st, "safe", fmt.Sprintf("safe:nilrecv@%d", n), "method call on possibly nil "+fv.text(se.X), mkNot(mkEq(rv.T, "nil")))
+				fv.addFact(st, mkNot(mkEq(rv.T, "nil")))
 			}
 			recv = &rv
 		}
@@ -785,7 +790,7 @@ func (fv *FuncVC) modLocs(entries []string, sc *SpecScope) []modLoc {
 					if a.S != SSlice || et == nil {
 						specFail("modifies contents(): not a slice")
 					}
-					out = append(out, modLoc{fv.declSliceHeap(fv.th.sortOf(et)), sx("sl_ref", a.T)})
+					out = append(out, modLoc{fv.declSliceHeapT(et), sx("sl_ref", a.T)})
 					continue
 				case "deref":
 					pt, ok := types.Unalias(a.GoT).Underlying().(*types.Pointer)
